@@ -620,3 +620,291 @@ Proof.
 Qed.
 
 End Head.
+
+(* ---------- the generated functions equal the reference semantics ---------- *)
+Section Gen.
+Variables (RT VT Cert ST : Type).     (* registry.Repository, notation.Verifier, x509.Certificate, verifySkipper *)
+Notation Outcome := (notation_go_VerificationOutcome Cert).
+Notation VOpts := notation_go_VerifierVerifyOptions.
+Notation Desc := v1_Descriptor.
+Notation Level := trustpolicy_VerificationLevel.
+Notation Res := (Desc * list (ptr Outcome) * option err)%type.
+
+(* the oracles, as the generated file declares them: methods take their (non-nil) receiver *)
+Variable resolve : RT -> string -> Desc * option err.
+Variable listsigs : RT -> Desc -> list (list Desc) * option err.
+Variable fetch : RT -> Desc -> list Z * Desc * option err.
+Variable vverify : VT -> Desc -> list Z -> VOpts -> ptr Outcome * option err.
+Variable skipv : ST -> VOpts -> bool * ptr Level * option err.
+Variable parse_ref : string -> registry_Reference * option err.
+Variable as_digest : registry_Reference -> option err.
+Variable as_skipper : VT -> option ST.
+
+(* the error values of notation.go (type, format string, wrapped errors) *)
+Definition E_retr (f : string) : err := Err "notation.SignatureRetrievalFailedError" f [].
+Definition E_nilv := Err "errors" "verifier cannot be nil" [].
+Definition E_nilr := Err "errors" "repo cannot be nil" [].
+Definition E_badmax := E_retr "verifyOptions.MaxSignatureAttempts expects a positive number, got %d".
+Definition E_noref := E_retr "reference is missing digest or tag".
+Definition E_mismatch := E_retr "user input digest %s does not match the resolved digest %s".
+Definition E_nosig := E_retr "no signature is associated with %q, make sure the artifact was signed successfully".
+Definition E_fetch := E_retr "unable to retrieve digital signature with digest %q associated with %q from the Repository, error : %v".
+Definition E_wrap (_ : err) : err := E_retr "%v".
+Definition E_done := Err "notation.errDoneVerification" "done verification" [].
+Definition E_vf := Err "notation.VerificationFailedError" "" [].
+Definition EXC_MSG := "signature evaluation stopped. The configured limit of %d signatures to verify per artifact exceeded".
+Definition E_exc := Err "notation.VerificationFailedError#errExceededMaxVerificationLimit" EXC_MSG [].
+Definition FAILFMT := "failed to verify signature with digest %v, %w".
+Definition ZD : Desc := mk_Descriptor "" "" 0 [] [] [] PNil "".
+Definition skip_out (lvl : ptr Level) : ptr Outcome := PNew (mk_VerificationOutcome Cert [] PNil lvl [] None).
+Definition is_exc_of (e : option err) : bool := err_is e (Some E_exc).
+
+Lemma gen_loop2_ref vo ad r v
+      (KR : VOpts -> bool -> list (ptr Outcome) -> list (option err) -> Z -> option err -> option Res)
+      (K : VOpts -> bool -> list (ptr Outcome) -> list (option err) -> Z -> option Res) :
+  (forall opts succ outs failed n,
+     K opts succ outs failed n =
+     if (n >=? VerifyOptions_MaxSignatureAttempts vo)%Z then KR opts succ outs failed n (Some E_exc)
+     else KR opts succ outs failed n None) ->
+  forall page opts succ outs failed n,
+  gen_notation_go_Verify_loop2 RT fetch VT Cert vverify K vo r KR v ad page opts succ outs failed n
+  = let '(n', opts', failed', succ', outs', e) :=
+        ref_page Cert (fetch r) (vverify v) ad (VerifyOptions_MaxSignatureAttempts vo) E_fetch E_exc E_done FAILFMT
+                 page (n, opts, failed, succ, outs) in
+    KR opts' succ' outs' failed' n' e.
+Proof.
+  intros HK.
+  induction page as [|d rest IH]; intros opts succ outs failed n;
+    cbn [gen_notation_go_Verify_loop2 ref_page ref_after]; rewrite ?HK, Z.geb_leb.
+  - destruct (_ <=? n)%Z; reflexivity.
+  - destruct (_ <=? n)%Z; [reflexivity|].
+    destruct (fetch r d) as [[blob sd] fe]. destruct fe as [e|]; cbn [is_none negb]; [reflexivity|].
+    fold smt.
+    destruct (vverify v ad blob (smt (Descriptor_MediaType sd) opts)) as [oc ve].
+    destruct ve as [e|]; cbn [is_none negb]; [|reflexivity].
+    destruct (ptr_val oc) as [ov|]; [|reflexivity].
+    cbn [set_VerificationOutcome_Error VerificationOutcome_Error]. apply IH.
+Qed.
+
+Lemma gen_loop1_ref vo ad r v ferr
+      (K : VOpts -> bool -> list (ptr Outcome) -> list (option err) -> Z -> option err -> option Res) :
+  forall pages opts succ outs failed n,
+  gen_notation_go_Verify_loop1 RT fetch VT Cert vverify K ferr vo (mk_VerificationFailedError EXC_MSG) r v ad
+    pages opts succ outs failed n
+  = let '(n', opts', failed', succ', outs', e) :=
+        ref_pages Cert (fetch r) (vverify v) ad (VerifyOptions_MaxSignatureAttempts vo) E_fetch E_exc E_done FAILFMT
+                  pages ferr (n, opts, failed, succ, outs) in
+    K opts' succ' outs' failed' n' e.
+Proof.
+  induction pages as [|p ps IH]; intros opts succ outs failed n;
+    cbn [gen_notation_go_Verify_loop1 ref_pages]; [reflexivity|].
+  match goal with
+  | |- gen_notation_go_Verify_loop2 _ _ _ _ _ ?K2 _ _ ?KR _ _ _ _ _ _ _ _ = _ =>
+      rewrite (gen_loop2_ref vo ad r v KR K2) by (intros; reflexivity)
+  end.
+  destruct (ref_page _ _ _ _ _ _ _ _ _ _ _) as [[[[[n' opts'] failed'] succ'] outs'] e].
+  destruct e as [x|]; [reflexivity|]. apply IH.
+Qed.
+
+(* the arguments of the reference semantics, read off the arguments of the generated function *)
+Definition has_skipper_of (v : VT) : bool := is_some (as_skipper v).
+Definition skipv_of (v : VT) : VOpts -> bool * ptr Level * option err :=
+  match as_skipper v with Some sk => skipv sk | None => fun _ => (false, PNil, None) end.
+Definition ad_of (r : RT) (vo : notation_go_VerifyOptions) : Desc := ad (resolve r) parse_ref vo.
+
+(* non-nil verifier v and repository r *)
+Definition ref_of (v : VT) (r : RT) (vo : notation_go_VerifyOptions) : Res :=
+  ref_Verify Cert (resolve r) (fetch r) parse_ref as_digest (vverify v) (skipv_of v)
+    E_nilv E_nilr E_badmax E_noref E_mismatch E_nosig E_fetch E_exc E_done E_vf E_wrap FAILFMT ZD skip_out is_exc_of
+    false false (has_skipper_of v) vo
+    (fst (listsigs r (ad_of r vo))) (snd (listsigs r (ad_of r vo))).
+
+Ltac listing_tac :=
+  match goal with |- context [listsigs ?r ?d] => destruct (listsigs r d) as [? ?] end;
+  rewrite gen_loop1_ref; cbn [fst snd];
+  unfold ref_tail, g0, o0, aref, maxv, E_vf, is_exc_of, E_exc, EXC_MSG, E_done, notation_go_errDoneVerification;
+  cbn [VerificationFailedError_Msg];
+  match goal with |- context [ref_pages ?a ?b ?c ?d ?e ?f ?g ?h ?i ?j ?k ?l] =>
+    let e0 := fresh "e0" in let sb := fresh "sb" in
+    destruct (ref_pages a b c d e f g h i j k l) as [[[[[? ?] ?] sb] ?] e0]; destruct e0, sb; cbn [is_some is_none negb andb];
+    repeat match goal with |- context [if ?c then _ else _] => destruct c end; reflexivity end.
+
+Ltac rest_tac r vo :=
+  unfold ref_rest, ref_listing, ad_of, ad, rr, rf, aref;
+  let ref := fresh "ref" in let pe := fresh "pe" in let adesc := fresh "adesc" in let re := fresh "re" in
+  destruct (parse_ref (VerifyOptions_ArtifactReference vo)) as [ref pe]; cbn [fst snd];
+  destruct pe; cbn [is_none negb]; [reflexivity|];
+  destruct (String.eqb (Reference_Reference ref) ""); [reflexivity|];
+  destruct (resolve r (Reference_Reference ref)) as [adesc re]; cbn [fst snd];
+  destruct re; cbn [is_none negb]; [reflexivity|];
+  unfold gen_go_digest_Digest_String;
+  destruct (as_digest ref); cbn [is_none is_some negb];
+  [listing_tac|];
+  destruct (String.eqb (Reference_Reference ref) (Descriptor_Digest adesc)); cbn [negb];
+  [listing_tac|reflexivity].
+
+Notation GEN := (gen_notation_go_Verify RT resolve listsigs fetch VT Cert vverify ST skipv parse_ref as_digest as_skipper).
+
+Theorem gen_Verify_nil_verifier verifier repo vo :
+  ptr_val verifier = None -> GEN verifier repo vo = Some (ZD, [], Some E_nilv).
+Proof. intros H. unfold gen_notation_go_Verify. rewrite H. reflexivity. Qed.
+
+Theorem gen_Verify_nil_repo verifier repo vo v :
+  ptr_val verifier = Some v -> ptr_val repo = None -> GEN verifier repo vo = Some (ZD, [], Some E_nilr).
+Proof. intros H1 H2. unfold gen_notation_go_Verify. rewrite H1, H2. reflexivity. Qed.
+
+Theorem gen_Verify_ref verifier repo vo v r :
+  ptr_val verifier = Some v -> ptr_val repo = Some r ->
+  GEN verifier repo vo = Some (ref_of v r vo).
+Proof.
+  intros Hv Hr.
+  unfold gen_notation_go_Verify, ref_of, ref_Verify, has_skipper_of, skipv_of, iface_assert.
+  rewrite Hv, Hr.
+  fold (maxv vo). destruct (maxv vo <=? 0)%Z; [reflexivity|].
+  destruct (as_skipper v) as [sk|]; cbn [is_some ptr_val].
+  - unfold o0, aref. destruct (skipv sk _) as [[skip lvl] se]. cbn [fst snd].
+    destruct se; cbn [is_none negb]; [reflexivity|]. destruct skip; [reflexivity|].
+    rest_tac r vo.
+  - rest_tac r vo.
+Qed.
+
+(* ---------- the generated notation.Verify and the C10 model ---------- *)
+Definition pages_of (r : RT) (vo : notation_go_VerifyOptions) : list (list Desc) := fst (listsigs r (ad_of r vo)).
+Definition lerr_of (r : RT) (vo : notation_go_VerifyOptions) : option err := snd (listsigs r (ad_of r vo)).
+
+(* the model's input: limit, SkipVerify's answer, reference class (oras + the digest pin against what
+   Resolve answers), the listing as paged by ListSignatures with every listed descriptor classified
+   by what FetchSignatureBlob and Verifier.Verify answer for it, ListSignatures' own error *)
+Definition abs_of (v : VT) (r : RT) (vo : notation_go_VerifyOptions) : input :=
+  abs Cert (resolve r) (fetch r) parse_ref as_digest (vverify v) (skipv_of v) false false (has_skipper_of v) vo
+      (pages_of r vo) (lerr_of r vo).
+
+(* the Go values an observation of the model stands for (the call log is not represented) *)
+Definition conc_of (v : VT) (r : RT) (vo : notation_go_VerifyOptions) (o : obs) : Res :=
+  conc Cert (resolve r) (fetch r) parse_ref (vverify v) (skipv_of v)
+       E_nilv E_nilr E_badmax E_noref E_mismatch E_nosig E_fetch E_exc E_vf E_wrap FAILFMT ZD skip_out vo
+       (pages_of r vo) (lerr_of r vo) o.
+
+(* what a listed descriptor is for the loop, and the listing *)
+Definition kind_gen (v : VT) (r : RT) (vo : notation_go_VerifyOptions) : Desc -> sigk :=
+  kind_of Cert (resolve r) (fetch r) parse_ref (vverify v) vo.
+Definition listing_gen (r : RT) (vo : notation_go_VerifyOptions) : list Desc := List.concat (pages_of r vo).
+(* the outcome Verifier.Verify returns for the k-th listed descriptor *)
+Definition outcome_gen (v : VT) (r : RT) (vo : notation_go_VerifyOptions) (k : nat) : ptr Outcome :=
+  fst (vc Cert (resolve r) (fetch r) parse_ref (vverify v) vo (dkk ZD (pages_of r vo) k)).
+
+(* the errors of the repository and of the verifier are not the unexported sentinel
+   errDoneVerification (errors.Is(err, errDoneVerification), notation.go:586) *)
+Definition oracles_not_done (v : VT) (r : RT) (vo : notation_go_VerifyOptions) : Prop :=
+  err_is (lerr_of r vo) (Some E_done) = false /\
+  forall a b c, err_is (snd (vverify v a b c)) (Some E_done) = false.
+
+Theorem gen_Verify_model verifier repo vo v r :
+  ptr_val verifier = Some v -> ptr_val repo = Some r -> oracles_not_done v r vo ->
+  GEN verifier repo vo = Some (conc_of v r vo (model (abs_of v r vo))).
+Proof.
+  intros Hv Hr (Hl & Hvv). rewrite (gen_Verify_ref verifier repo vo v r Hv Hr). f_equal.
+  unfold ref_of, conc_of, abs_of, pages_of, lerr_of.
+  apply ref_Verify_model; try reflexivity; assumption.
+Qed.
+
+(* nil arguments: the model's observation for ANY input with that flag *)
+Lemma conc_nil_verifier v r vo i : i_nilv i = true -> conc_of v r vo (model i) = (ZD, [], Some E_nilv).
+Proof. intros H. unfold model. rewrite H. reflexivity. Qed.
+
+Lemma conc_nil_repo v r vo i : i_nilv i = false -> i_nilr i = true -> conc_of v r vo (model i) = (ZD, [], Some E_nilr).
+Proof. intros H1 H2. unfold model. rewrite H1, H2. reflexivity. Qed.
+
+(* ---- the property, on the generated function ---- *)
+
+(* nil error <-> the verifier said skip, or the listing is reached and one of the first N listed
+   signatures verifies, every one before it fetched and failing with an outcome *)
+Theorem gen_Verify_ok_iff verifier repo vo v r :
+  ptr_val verifier = Some v -> ptr_val repo = Some r -> oracles_not_done v r vo ->
+  (exists d outs, GEN verifier repo vo = Some (d, outs, None)) <->
+  (0 < VerifyOptions_MaxSignatureAttempts vo)%Z /\
+  (abs_skip (skipv_of v) (has_skipper_of v) vo = SkipYes \/
+   (reaches_listing (abs_of v r vo) /\
+    exists k, first_good (map (kind_gen v r vo) (listing_gen r vo)) (VerifyOptions_MaxSignatureAttempts vo) k)).
+Proof.
+  intros Hv Hr (Hl & Hvv). rewrite (gen_Verify_ref verifier repo vo v r Hv Hr).
+  pose proof (ref_Verify_ok_iff Cert (resolve r) (fetch r) parse_ref as_digest (vverify v) (skipv_of v)
+                E_nilv E_nilr E_badmax E_noref E_mismatch E_nosig E_fetch E_exc E_done E_vf E_wrap FAILFMT ZD skip_out
+                is_exc_of false false (has_skipper_of v) vo (pages_of r vo) (lerr_of r vo)
+                eq_refl eq_refl eq_refl Hl Hvv) as H.
+  unfold kind_gen, listing_gen, abs_of. fold (L (pages_of r vo)).
+  unfold maxv in H. unfold ref_of. unfold pages_of, lerr_of in *.
+  match type of H with snd ?R = None <-> _ => set (RR := R) in * end.
+  split.
+  - intros (d & outs & E). inversion E as [E']. apply proj1 in H. rewrite E' in H.
+    destruct (H eq_refl) as (_ & _ & Hm & Hc). split; [exact Hm|exact Hc].
+  - intros (Hm & Hc). destruct RR as [[d outs] e] eqn:E. cbn [snd] in H.
+    exists d, outs. f_equal. f_equal. apply H. repeat split; auto.
+Qed.
+
+(* ... and then it returns the resolved descriptor and exactly the outcome of that signature *)
+Theorem gen_Verify_first_good verifier repo vo v r k :
+  ptr_val verifier = Some v -> ptr_val repo = Some r -> oracles_not_done v r vo ->
+  reaches_listing (abs_of v r vo) ->
+  first_good (map (kind_gen v r vo) (listing_gen r vo)) (VerifyOptions_MaxSignatureAttempts vo) k ->
+  GEN verifier repo vo = Some (ad_of r vo, [outcome_gen v r vo k], None).
+Proof.
+  intros Hv Hr (Hl & Hvv) Hreach Hg. rewrite (gen_Verify_ref verifier repo vo v r Hv Hr). f_equal.
+  unfold ref_of.
+  apply (ref_Verify_first_good Cert (resolve r) (fetch r) parse_ref as_digest (vverify v) (skipv_of v)
+           E_nilv E_nilr E_badmax E_noref E_mismatch E_nosig E_fetch E_exc E_done E_vf E_wrap FAILFMT ZD skip_out
+           is_exc_of false false (has_skipper_of v) vo (pages_of r vo) (lerr_of r vo)
+           eq_refl eq_refl eq_refl Hl Hvv k Hreach Hg).
+Qed.
+
+(* a digest reference whose digest differs from the one the repository resolves never verifies *)
+Theorem gen_Verify_pin verifier repo vo v r dg d outs :
+  ptr_val verifier = Some v -> ptr_val repo = Some r -> oracles_not_done v r vo ->
+  abs_pref parse_ref as_digest vo = PDigest dg -> dg <> Descriptor_Digest (ad_of r vo) ->
+  GEN verifier repo vo = Some (d, outs, None) ->
+  abs_skip (skipv_of v) (has_skipper_of v) vo = SkipYes.
+Proof.
+  intros Hv Hr (Hl & Hvv) Hp Hne E. rewrite (gen_Verify_ref verifier repo vo v r Hv Hr) in E.
+  inversion E as [E'].
+  apply (ref_Verify_pin Cert (resolve r) (fetch r) parse_ref as_digest (vverify v) (skipv_of v)
+           E_nilv E_nilr E_badmax E_noref E_mismatch E_nosig E_fetch E_exc E_done E_vf E_wrap FAILFMT ZD skip_out
+           is_exc_of false false (has_skipper_of v) vo (pages_of r vo) (lerr_of r vo)
+           eq_refl eq_refl eq_refl Hl Hvv dg Hp Hne).
+  unfold ref_of, pages_of, lerr_of in E'. unfold pages_of, lerr_of. rewrite E'. reflexivity.
+Qed.
+
+(* the generated function never panics (its option is always Some) *)
+Theorem gen_Verify_total verifier repo vo : GEN verifier repo vo <> None.
+Proof.
+  destruct (ptr_val verifier) as [v|] eqn:Hv; [|rewrite gen_Verify_nil_verifier by exact Hv; discriminate].
+  destruct (ptr_val repo) as [r|] eqn:Hr; [|rewrite (gen_Verify_nil_repo verifier repo vo v Hv Hr); discriminate].
+  rewrite (gen_Verify_ref verifier repo vo v r Hv Hr). discriminate.
+Qed.
+
+(* a non-positive limit: the error, whatever the verifier and the repository would answer *)
+Theorem gen_Verify_bad_limit verifier repo vo v r :
+  ptr_val verifier = Some v -> ptr_val repo = Some r ->
+  (VerifyOptions_MaxSignatureAttempts vo <= 0)%Z ->
+  GEN verifier repo vo = Some (ZD, [], Some E_badmax).
+Proof.
+  intros Hv Hr Hm. rewrite (gen_Verify_ref verifier repo vo v r Hv Hr). unfold ref_of, ref_Verify, maxv.
+  apply Z.leb_le in Hm. rewrite Hm. reflexivity.
+Qed.
+
+(* the verifier says skip: one outcome carrying the level it returned, zero descriptor, and the
+   result does not depend on the repository at all (neither Resolve nor ListSignatures nor
+   FetchSignatureBlob occurs in it) *)
+Theorem gen_Verify_skip verifier repo vo v r :
+  ptr_val verifier = Some v -> ptr_val repo = Some r ->
+  (0 < VerifyOptions_MaxSignatureAttempts vo)%Z ->
+  abs_skip (skipv_of v) (has_skipper_of v) vo = SkipYes ->
+  GEN verifier repo vo = Some (ZD, [skip_out (snd (fst (skipv_of v (o0 vo))))], None).
+Proof.
+  intros Hv Hr Hm Hs. rewrite (gen_Verify_ref verifier repo vo v r Hv Hr). unfold ref_of, ref_Verify, maxv.
+  apply Z.leb_gt in Hm. rewrite Hm. unfold abs_skip in Hs.
+  destruct (has_skipper_of v); [|discriminate].
+  destruct (snd (skipv_of v (o0 vo))); [discriminate|].
+  destruct (fst (fst (skipv_of v (o0 vo)))); [reflexivity|discriminate].
+Qed.
+
+End Gen.
